@@ -47,6 +47,12 @@ CHECKS.update({
     note="Trusted: TLC, the digest (class name + ER7 text with explicit delimiters / exception class / validation counts). The baseline is the implementation itself under pristine defaults (metamorphic oracle). Known finding: stand-alone elements read the default delimiters lazily.",
     ref="DESIGN.md §4 C17, §3.10"),
 })
+CHECKS.update({
+ "C13": dict(technique="TLA+ lexical definitions of DT/TM/DTM/NM/SI (Lexical.tla) with a TLC-enumerated boundary generator (LexicalMC); every generated string through datatype_factory / SubComponent at both levels, judged by the TLC trace specification LexicalTrace",
+    text="TLC enumerates date/time strings slot by slot around every boundary (month 00/12/13, day 28-32 in leap/non-leap years, hour 24, minute/second 60, 0-5 fractional digits, offsets around -1200/+1400, malformed and doubled offsets, junk characters) and all strings over a numeric alphabet up to length 4 (thorough 5), checking laws between the definitions; each string is pushed through the real factories for DT, TM, DTM, NM, SI under STRICT and TOLERANT and TLC evaluates the lexical definition on the input to decide: STRICT accepts exactly the valid strings, over-long ones raise MaxLengthReached, accepted text (numerics: number, and text when plain) is preserved, TOLERANT rejects nothing and keeps the text.",
+    note="Trusted: TLC, Lexical.tla (offset range -1200..+1400; .5, 5., +5 for SI and years below 1000 get no acceptance verdict). The five classes are shared by all versions that define them; the full grid runs once per distinct class plus a sample per further version. Known finding: TOLERANT re-spells valid numbers.",
+    ref="DESIGN.md §4 C13, §3.3"),
+})
 NOT_YET = {}
 def main():
     props = [json.loads(l) for l in open(os.path.join(HERE, "properties.jsonl"))]
